@@ -237,7 +237,7 @@ void h_slice(void)
 void h_unslice(void) { cstl_array_t * a, * s; A_WIT_IN(); cstl_array_unslice(s, a); VF_END(); }
 void h_alloc(void)
 {
-    cstl_array_t * a; size_t nm = (vf_w_nm2 = nondet_size_t()), sz = (vf_w_sz2 = nondet_size_t());
+    cstl_array_t * a; size_t nm = (vf_w_nm2 = nondet_size_t()), sz = (vf_w_sz2 = VF_ESZ2);   /* literal: keeps nm * sz linear */
     A_WIT_IN();
     cstl_array_alloc(a, nm, sz);
     VF_END();
@@ -245,7 +245,7 @@ void h_alloc(void)
 void h_release(void) { cstl_array_t * a; void ** b; A_WIT_IN(); cstl_array_release(a, b); VF_END(); }
 void h_set(void)
 {
-    cstl_array_t * a; void * buf; size_t nm = (vf_w_nm2 = nondet_size_t()), sz = (vf_w_sz2 = nondet_size_t());
+    cstl_array_t * a; void * buf; size_t nm = (vf_w_nm2 = nondet_size_t()), sz = (vf_w_sz2 = VF_ESZ2);
     A_WIT_IN();
     cstl_array_set(a, buf, nm, sz);
     VF_END();
